@@ -298,8 +298,8 @@ package bchutil
 //@   loop 1 unroll 32
 
 //@ func bchutil.checkDecodeCashAddress
-//@   ensures err == nil ==> len(result) == 20 && freshornil(result)
-//@   ensures err == nil ==> (result[0 - 1] == 0 && t == 0) || (result[0 - 1] == 8 && t == 1)
+//@   ensures err == nil ==> (len(result) == 20 || len(result) == 32) && freshornil(result)
+//@   ensures err == nil ==> (len(result) == 20 && result[0 - 1] == 0 && t == 0) || (len(result) == 20 && result[0 - 1] == 8 && t == 1) || (len(result) == 32 && result[0 - 1] == 11 && t == 2)
 //@   modifies nothing
 
 //@ func bchutil.checkEncodeCashAddress
@@ -401,6 +401,8 @@ package bchutil
 //@   assert after checkDecodeCashAddress#2: !($ret_EqualFold#3 || $ret_EqualFold#4) ==> len($arg0) >= len(defaultNet.SlpAddressPrefix) + 1 && $arg0[len(defaultNet.SlpAddressPrefix)] == ':' && forall k :: 0 <= k && k < len(defaultNet.SlpAddressPrefix) ==> $arg0[k] == defaultNet.SlpAddressPrefix[k]
 //@   assert after newAddressPubKeyHash#1: typ == AddrTypePayToPubKeyHash && $arg1 == defaultNet && sameobj($arg0, $ret0_checkDecodeCashAddress#1) && len($arg0) == 20
 //@   assert after newAddressScriptHashFromHash#1: typ == AddrTypePayToScriptHash && $arg1 == defaultNet && sameobj($arg0, $ret0_checkDecodeCashAddress#1) && len($arg0) == 20
+//@   assert after newAddressScriptHash32FromHash#1: typ == AddrTypePayToScriptHash32 && $arg1 == defaultNet && sameobj($arg0, $ret0_checkDecodeCashAddress#1) && len($arg0) == 32
+//@   assert after NewSlpAddressScriptHash32FromHash#1: $ret2_checkDecodeCashAddress#2 == AddrTypePayToScriptHash32 && $arg1 == defaultNet && sameobj($arg0, $ret0_checkDecodeCashAddress#2) && len($arg0) == 32
 //@   assert after NewSlpAddressPubKeyHash#1: $ret2_checkDecodeCashAddress#2 == AddrTypePayToPubKeyHash && $arg1 == defaultNet && sameobj($arg0, $ret0_checkDecodeCashAddress#2) && len($arg0) == 20
 //@   assert after NewSlpAddressScriptHashFromHash#1: $ret2_checkDecodeCashAddress#2 == AddrTypePayToScriptHash && $arg1 == defaultNet && sameobj($arg0, $ret0_checkDecodeCashAddress#2) && len($arg0) == 20
 //@   assert after CheckDecode#1: sameobj($arg0, addr) && $arg0.off == addr.off && len($arg0) == len(addr)
@@ -434,10 +436,9 @@ package bchutil
 //@   assert after encodeCashAddress#1: len($arg0) == 20 && (forall k :: 0 <= k && k < 20 ==> $arg0[k] == a.hash[k]) && sameobj($arg1, a.prefix) && len($arg1) == len(a.prefix) && $arg1.off == a.prefix.off && $arg2 == AddrTypePayToScriptHash
 
 //@ func bchutil.(*AddressScriptHash32).EncodeAddress
-//@   ensures $calls_encodeCashAddress == 1 && sameobj(result, $ret_encodeCashAddress#1) && len(result) == len($ret_encodeCashAddress#1)
+//@   ensures $calls_checkEncodeCashAddress == 1 && sameobj(result, $ret_checkEncodeCashAddress#1) && len(result) == len($ret_checkEncodeCashAddress#1)
 //@   modifies nothing
-//@   assert after encodeCashAddress#1: len($arg0) == 32 && (forall k :: 0 <= k && k < 32 ==> $arg0[k] == a.hash[k]) && sameobj($arg1, a.prefix) && len($arg1) == len(a.prefix) && $arg1.off == a.prefix.off
-//@   assert after encodeCashAddress#1: $arg2 == AddrTypePayToScriptHash32
+//@   assert after checkEncodeCashAddress#1: len($arg0) == 32 && (forall k :: 0 <= k && k < 32 ==> $arg0[k] == a.hash[k]) && sameobj($arg1, a.prefix) && len($arg1) == len(a.prefix) && $arg1.off == a.prefix.off && $arg2 == AddrTypePayToScriptHash
 
 //@ func bchutil.(*LegacyAddressPubKeyHash).EncodeAddress
 //@   ensures $calls_encodeLegacyAddress == 1 && sameobj(result, $ret_encodeLegacyAddress#1) && len(result) == len($ret_encodeLegacyAddress#1)
